@@ -197,21 +197,25 @@ func RunRefcheck(t *testing.T, r *verifmc.Run, pp *Params, testdata string) {
 		t.Fatalf("refcheck: #E + #E' != 2(p+1)")
 	}
 	// the raw ladder agrees with the RFC transcription on clamped scalars
-	for _, kk := range kCore {
-		for _, uu := range pp.PeersSmall() {
-			x, z := pp.rawLadder(c.DecodeScalar(kk.B), c.DecodeU(uu.B))
-			var o *big.Int
-			if z.Sign() == 0 {
-				o = new(big.Int)
-			} else {
-				o = x.Mul(x, new(big.Int).ModInverse(z, c.P))
-				o.Mod(o, c.P)
-			}
-			if !bytes.Equal(c.LE(o), m.X(kk.B, uu.B)) {
-				t.Fatalf("refcheck: raw ladder and RFC ladder differ on k=%s u=%s", kk.Name, uu.Name)
-			}
-			r.Count("raw_ladder_cross_checked", 1)
+	uSmall := pp.PeersSmall()
+	rawBad := make([]bool, len(kCore)*len(uSmall))
+	verifmc.ParallelFor(len(rawBad), func(j int) {
+		kk, uu := kCore[j/len(uSmall)], uSmall[j%len(uSmall)]
+		x, z := pp.rawLadder(c.DecodeScalar(kk.B), c.DecodeU(uu.B))
+		var o *big.Int
+		if z.Sign() == 0 {
+			o = new(big.Int)
+		} else {
+			o = x.Mul(x, new(big.Int).ModInverse(z, c.P))
+			o.Mod(o, c.P)
 		}
+		rawBad[j] = !bytes.Equal(c.LE(o), m.X(kk.B, uu.B))
+	})
+	for j, bad := range rawBad {
+		if bad {
+			t.Fatalf("refcheck: raw ladder and RFC ladder differ on k=%s u=%s", kCore[j/len(uSmall)].Name, uSmall[j%len(uSmall)].Name)
+		}
+		r.Count("raw_ladder_cross_checked", 1)
 	}
 	// [h*L]P = O for curve points, [ht*Lt]P = O for twist points, and not for the
 	// other side (so the side classification and the orders are the right way round)
